@@ -81,6 +81,30 @@ class Env:
     def client(self, kind="client", **kw):
         kw.setdefault("socket_module", self.net)
         spec = self.addrs[0] if self.spec is None else self.spec
+        if kw.get("client_class") is not None:
+            # the stack built around a Client subclass (vlib/subclasses.py)
+            from vlib import subclasses
+            cc = kw.pop("client_class")
+            how = kw.pop("client_class_how", "assign")
+            if cc is subclasses.TunnelClient and subclasses.TunnelClient.tunnel_addr not in self.net.servers:
+                from vlib.mcserver import McServer
+                self.net.add_server(subclasses.TunnelClient.tunnel_addr, McServer(self.clock, name="tunnel"))
+            return subclasses.build(kind, spec, cc, how, **kw)
+        kw.pop("client_class", None)
+        kw.pop("client_class_how", None)
+        if kind in ("aws", "aws-pooled"):
+            # the ElastiCache subclass (which re-implements __init__): its nodes are this Env's servers, learnt from a
+            # configuration endpoint that advertises them
+            from pymemcache.client.ext.aws_ec_client import AWSElastiCacheHashClient
+            from vlib.mcserver import McServer
+            cfg_addr = ("cfg.example.com", 11211)
+            if cfg_addr not in self.net.servers:
+                cfgsrv = McServer(self.clock, name="cfg")
+                nodes = [a for a in (kw.pop("servers", None) or self.addrs) if isinstance(a, tuple)]
+                cfgsrv.cluster_config = b"1\n" + " ".join("%s|%s|%d" % (h, h, int(p)) for h, p in nodes).encode() + b"\n"
+                self.net.add_server(cfg_addr, cfgsrv)
+            kw.pop("servers", None)
+            return AWSElastiCacheHashClient("cfg.example.com:11211", use_pooling=(kind == "aws-pooled"), use_vpc=True, **kw)
         if kind == "client":
             return Client(spec, **kw)
         if kind == "pooled":
